@@ -109,7 +109,7 @@ func genArchive(g *Gen, maxBlocks int) (roots string, bs []Blk, ver int, dp uint
 		arch = writeAll(r, bs, true)
 		return roots, bs, 1, 0, arch, len(arch)
 	}
-	dp = []uint64{0, 0, 1, 7, 64}[g.pick(5)]
+	dp = []uint64{0, 0, 1, 7, 64, 4097}[g.pick(6)]
 	arch = writeAll(r, bs, false, carv2.UseDataPadding(dp))
 	payloadEnd = int(leU64(arch[27:35]) + leU64(arch[35:43]))
 	return roots, bs, 2, dp, arch, payloadEnd
@@ -225,6 +225,30 @@ func repeatCases(g *Gen, o *Out) {
 	}
 }
 
+// sectionCuts lists, for the payload window [base,end) of an archive, the offsets around every
+// length prefix (one before it up to one past it) and a few inside each CID: the places where a cut
+// changes which read fails.
+func sectionCuts(arch []byte, base, end int) []int {
+	var cuts []int
+	p := base
+	first := true
+	for p < end && p < len(arch) {
+		l, k := uvarintAt(arch, p)
+		if k <= 0 {
+			break
+		}
+		for d := -1; d <= k+1; d++ {
+			cuts = append(cuts, p+d)
+		}
+		if !first {
+			cuts = append(cuts, p+k+2, p+k+4, p+k+20, p+k+35, p+k+36, p+k+37)
+		}
+		first = false
+		p += k + int(l)
+	}
+	return cuts
+}
+
 // prefixCutCases: for every option combination that changes how a length prefix is read
 // (ZeroLengthSectionAsEOF on/off, trusted on/off) and every reader, cut a small archive whose sections
 // have 1-, 2- and 3-byte length prefixes at every offset inside and next to each prefix, and inside
@@ -241,16 +265,7 @@ func prefixCutCases(g *Gen, o *Out) {
 			base = int(leU64(arch[27:35]))
 			end = base + int(leU64(arch[35:43]))
 		}
-		// offsets of every length prefix in the payload window
-		var cuts []int
-		p := base
-		for p < end {
-			l, k := uvarintAt(arch, p)
-			for d := -1; d <= k+1; d++ {
-				cuts = append(cuts, p+d)
-			}
-			p += k + int(l)
-		}
+		cuts := sectionCuts(arch, base, end)
 		desc := fmt.Sprintf("roots=%s blocks=%s ver=%d dp=0 arch=%s", rootsArg(r), blocksStr(bs), ver, hex.EncodeToString(arch))
 		for _, z := range []bool{false, true} {
 			for _, tr := range []bool{false, true} {
@@ -267,6 +282,15 @@ func prefixCutCases(g *Gen, o *Out) {
 						o.Line(fmt.Sprintf("mut rd=%s %s %s trunc=%d", rd, ro, desc, k), runReader(rd, ro, arch[:k])+" archok=1")
 						o.Count("prefixcut/" + rd)
 					}
+				}
+				for _, k := range cuts {
+					if k < 0 || k >= end {
+						continue
+					}
+					for _, full := range []bool{true, false} {
+						o.Line(fmt.Sprintf("inspect full=%d %s in=%s", b2i(full), ro, hexOr(arch[:k])), runInspect(arch[:k], ro, full))
+					}
+					o.Count("prefixcut/inspect")
 				}
 			}
 		}
